@@ -257,12 +257,12 @@ func verifC03Sys(id string, seed int64) *verifSys {
 				continue
 			}
 			info := verifOpenOwn(c, whole)
+			if info.Weak {
+				bad("keys-from-a-public-value", "%s enciphered a data message (key ids %d/%d) under keys derived from a D-H secret of 0, 1 or p-1: whoever sees the wire derives the same AES key and reads the text", p.Name, info.SenderKeyID, info.RecipientKeyID)
+			}
 			if info.OK {
 				m.Opened++
 				opened = append(opened, info.Plain)
-				if info.Weak {
-					bad("keys-from-a-public-value", "%s enciphered a data message (key ids %d/%d) under keys derived from a D-H secret of 0, 1 or p-1: whoever sees the wire derives the same AES key and reads the text", p.Name, info.SenderKeyID, info.RecipientKeyID)
-				}
 				if !info.CTROK {
 					bad("cipher-is-not-aes-ctr", "a data message of %s (%d bytes of ciphertext) does not decrypt to the same text under the standard library's AES in counter mode: the key stream is not the specification's, a text enciphered with it is not protected as required", p.Name, len(info.Cipher))
 				}
